@@ -132,7 +132,7 @@ class Run(object):
                 self.analysis_errors.append('%s: internal error %r at %s' % (
                     r.__name__, e, ' | '.join(x.strip() for x in tb[-4:-1])))
 
-    def share(self, ctx, rule_fn, src_rule, dst_rule, doc=None):
+    def share(self, ctx, rule_fn, src_rule, dst_rule, doc=None, keep=None):
         """Run a rule function of another property and adopt its obligations
         and findings under this property's rule id dst_rule."""
         sub = type(self)(self.prop_id, self.tier, self.project)
@@ -146,12 +146,16 @@ class Run(object):
             o = dict(o)
             if o.get('rule') != src_rule:
                 continue
+            if keep is not None and not keep(o.get('key') or o.get('where') or ''):
+                continue
             o['rule'] = dst_rule
             if 'key' in o:
                 o['key'] = o['key'].replace(src_rule + '|', dst_rule + '|', 1)
             self.obligations.append(o)
         for fd in sub.findings:
             if fd.rule != src_rule:
+                continue
+            if keep is not None and not keep(fd.key):
                 continue
             fd.rule = dst_rule
             fd.key = fd.key.replace(src_rule + '|', dst_rule + '|', 1)
